@@ -182,7 +182,30 @@ class Facts:
             return self._ghost_memo[nid]
         self.ghosts_at = ghosts_at
 
+        self._flagdefs = {}
+
         def atom(expr, truth, state):
+            # a local that was assigned a condition (`bad = len(k) != n` ... `if bad:`), possibly a different one on each path: on
+            # every alternative that knows which, the test is a test of that condition
+            if isinstance(expr, ast.Name):
+                res, plain = set(), set()
+                for alt in state:
+                    d = [k for (k, t) in alt if k[0] == "flagdef" and k[1] == expr.id]
+                    if len(d) == 1 and d[0][2] in self._flagdefs:
+                        r = refine_bool(self._flagdefs[d[0][2]], truth, frozenset([alt]), atom, join)
+                        if r:
+                            res |= set(r)
+                    else:
+                        plain.add(alt)
+                if res or len(plain) != len(state):
+                    rest = None
+                    if plain:
+                        rest = atom_plain(expr, truth, frozenset(plain))
+                    allr = set(res) | (set(rest) if rest else set())
+                    return _norm(allr) if allr else None
+            return atom_plain(expr, truth, state)
+
+        def atom_plain(expr, truth, state):
             facts = atom_facts(fi, expr, truth, ghosts_at(cur[0]) if cur[0] is not None else ())
             out = set()
             for alt in state:
@@ -200,7 +223,19 @@ class Facts:
             killed = self._killed(node)
             if not killed:
                 return state
-            return _norm(frozenset((k, t) for (k, t) in alt if not any(mentions(k, nm) for nm in killed)) for alt in state)
+            state = _norm(frozenset((k, t) for (k, t) in alt if not any(mentions(k, nm) for nm in killed)) for alt in state)
+            st_ = node.stmt
+            if node.kind == "stmt" and isinstance(st_, ast.Assign) and len(st_.targets) == 1 and isinstance(st_.targets[0], ast.Name):
+                v, x = st_.value, st_.targets[0].id
+                cond_like = isinstance(v, (ast.Compare, ast.BoolOp)) or (isinstance(v, ast.UnaryOp) and isinstance(v.op, ast.Not)) or \
+                    (isinstance(v, ast.Constant) and isinstance(v.value, bool))
+                if cond_like and not any(isinstance(y, ast.Name) and y.id == x for y in ast.walk(v)) and \
+                        not any(isinstance(y, (ast.Call, ast.Await, ast.NamedExpr)) and not (isinstance(y, ast.Call) and dotted(y.func) in ("len", "isinstance", "bool")) for y in ast.walk(v)):
+                    tag = "n%d" % node.id
+                    self._flagdefs[tag] = v
+                    key = ("flagdef", x, tag, unparse(v))
+                    state = _norm(frozenset(alt | {(key, True)}) for alt in state)
+            return state
 
         def refine(node, label, state):
             if state is None:
